@@ -51,7 +51,10 @@ func c20XMLBodies(root string) []string {
 		"<" + root + "><Owner><ID>usr1</ID></Owner><AccessControlList><Grant><Permission>READ</Permission></Grant></AccessControlList></" + root + ">",
 		"<" + root + "><Owner><ID>usr1</ID></Owner><AccessControlList><Grant><Grantee><ID>usr3</ID></Grantee></Grant></AccessControlList></" + root + ">",
 		"<" + root + "><Object><VersionId>x</VersionId></Object><Object><Key>obj1</Key></Object></" + root + ">",
-		"<" + root + "><MfaDelete>Disabled</MfaDelete></" + root + ">"}
+		"<" + root + "><MfaDelete>Disabled</MfaDelete></" + root + ">",
+		"<" + root + "><RequestProgress></RequestProgress></" + root + ">",
+		"<" + root + "><Expression>select * from s3object</Expression><ExpressionType>SQL</ExpressionType><RequestProgress><Enabled></Enabled></RequestProgress><InputSerialization><CSV></CSV></InputSerialization><OutputSerialization><CSV></CSV></OutputSerialization></" + root + ">",
+		"<" + root + "><Expression>select * from s3object</Expression><ExpressionType>SQL</ExpressionType><RequestProgress></RequestProgress><ScanRange></ScanRange></" + root + ">"}
 }
 
 var c20JSONBodies = []string{"", "{", "[]", "null", "{}", `{"Statement":null}`, `{"Statement":[null]}`, `{"Statement":[{}]}`, `{"Statement":[[]]}`, `{"Statement":{"a":1}}`, `{"Statement":[{"Effect":"Allow","Principal":null,"Action":null,"Resource":null}]}`,
@@ -59,6 +62,9 @@ var c20JSONBodies = []string{"", "{", "[]", "null", "{}", `{"Statement":null}`, 
 	`{"Statement":[{"Effect":1,"Principal":2,"Action":3,"Resource":4}]}`, strings.Repeat("[", 5000), `{"Statement":[{"Effect":"Allow","Principal":"*","Action":"s3:*","Resource":"*"}]}`, "\xff\xfe"}
 
 var c20CopySources = []string{"", "/", "bk-main", "bk-main/", "/bk-main/obj1", "bk-main/obj1?versionId=", "bk-main/obj1?versionId=zzz", "?versionId=x", "//", "%", "%zz", "bk-main/../bk-other/secret", "nosuchbucket/k", "bk-main/nosuchkey", strings.Repeat("a/", 600), "bk-main/obj1?x=y", "bk-main%2Fobj1"}
+
+// c20Targets are request targets that are not an absolute path (the request line carries them verbatim).
+var c20Targets = []string{"foo", "*", "?x", "%zz", "bk-main/obj1", "bk-main", "http://gw.local:7070/bk-main/obj1", "//", "/%", ".", "..", "%2Fbk-main%2Fobj1", "\\bk-main", "#"}
 
 var c20Ranges = []string{"bytes=-1", "bytes=0-", "bytes=9999999999999999999999-", "bytes=1-0", "garbage", "bytes=0-0,1-1", "bytes=-", "bytes=-9223372036854775808"}
 
@@ -181,7 +187,7 @@ func c20Cases(thorough bool) []c20Case {
 	creds := []string{"valid", "wrong-secret", "anonymous", "unknown-access-key"}
 	add := func(ep, field, class, val string) {
 		for _, c := range creds {
-			if c != "valid" && !thorough && field != "body" && field != "chunk-framing" && field != "unsigned-framing" {
+			if c != "valid" && !thorough && field != "body" && field != "body-only" && field != "no-content-length" && field != "target" && field != "chunk-framing" && field != "unsigned-framing" {
 				// quick tier: invalid credentials only for bodies and framing (the parsers reachable before authentication)
 				continue
 			}
@@ -221,6 +227,21 @@ func c20Cases(thorough bool) []c20Case {
 		if root := c20XMLRoot(ep.ID); root != "" {
 			for _, b := range c20XMLBodies(root) {
 				add(ep.ID, "body", "xml", b)
+			}
+		}
+		if ep.ID == "PutBucketAcl" || ep.ID == "PutObjectAcl" || ep.ID == "CreateBucket" {
+			// the document alone: the template's canned-ACL header makes the gateway refuse the request before it looks at the body
+			for _, b := range c20XMLBodies(c20XMLRoot(ep.ID)) {
+				add(ep.ID, "body-only", "xml", b)
+			}
+		}
+		if ep.Method == "PUT" || ep.Method == "POST" {
+			// a request that declares no body at all: neither Content-Length nor Transfer-Encoding
+			add(ep.ID, "no-content-length", "framing", "")
+		}
+		if ep.ID == "GetObject" || ep.ID == "PutObject" || ep.ID == "ListBuckets" || ep.ID == "HeadObject" || ep.ID == "DeleteObject" || ep.ID == "ListObjectsV2" {
+			for _, tgt := range c20Targets {
+				add(ep.ID, "target", "request-target", tgt)
 			}
 		}
 		if ep.ID == "PutBucketPolicy" {
@@ -318,6 +339,23 @@ func (c c20Case) build(w *World) *gw.Req {
 			req.Set("X-"+val, "v")
 		case field == "body":
 			req.Body = []byte(val)
+		case field == "body-only":
+			req.Body = []byte(val)
+			for _, h := range append([][2]string(nil), req.Headers...) {
+				if l := strings.ToLower(h[0]); l == "x-amz-acl" || strings.HasPrefix(l, "x-amz-grant-") {
+					req.Del(h[0])
+				}
+			}
+		case field == "no-content-length":
+			req.Body = nil
+			req.NoAutoCL = true
+			req.Del("Content-Length")
+			req.Del("Content-MD5")
+		case field == "target":
+			req.Path = val
+			if i := strings.IndexAny(val, "?#"); i >= 0 {
+				req.Query = ""
+			}
 		case field == "key":
 			b := strings.SplitN(strings.TrimPrefix(req.Path, "/"), "/", 2)[0]
 			req.Path = "/" + b + "/" + gw.URIEncode(val, false)
